@@ -119,7 +119,7 @@ func VH_C05_short_index_records() {
 // the same.
 //verif:shards 16
 //verif:witnesses 16
-//verif:bounds generated CREATE TABLE: 1..2 columns (thorough: 1..3) named from {a, b, A} (duplicates and case-duplicates included), type {"", INTEGER}, column constraint {none, PRIMARY KEY, UNIQUE}; 0..1 table constraints PRIMARY KEY/UNIQUE over 1..2 key columns from {a, b, nosuch, a+1}; WITHOUT ROWID yes/no; one-row table (concrete values) with an index i over (b, a), lookup key 1 or 2; Columns, Select, SelectRowid, PKSelect, IndexedSelect, IndexedSelectEq implementations all run on the resulting schema: errors or rows, never a panic. The syntax tree is generated directly (parsing is skipped for speed); native replays assert that parsing the rendered text gives the same tree
+//verif:bounds generated CREATE TABLE: 1..2 columns named from {a, b, A} (duplicates and case-duplicates included), type {"", INTEGER}, column constraint {none, PRIMARY KEY, UNIQUE}; 0..1 table constraints PRIMARY KEY/UNIQUE over 1..2 key columns from {a, b, nosuch, a+1}; WITHOUT ROWID yes/no; one-row table (concrete values) with an index i over (b, a), lookup key 1 or 2; Columns, Select, SelectRowid, PKSelect, IndexedSelect, IndexedSelectEq implementations all run on the resulting schema: errors or rows, never a panic. The syntax tree is generated directly (parsing is skipped for speed); native replays assert that parsing the rendered text gives the same tree
 func VH_C05_hostile_gen() {
 	sh := sdb.VerifShard(16)
 	// the file depends on the shard only (WITHOUT ROWID or not): it is built and
